@@ -318,6 +318,10 @@ def initialize_lua(ctx: "Wtp") -> None:
     def filter_attribute_access(
         obj: Any, attr_name: str, is_setting: bool
     ) -> str:
+        if isinstance(obj, partial):
+            # helpers are partials over the context: .args/.func/.keywords
+            # would hand the Wtp object to Lua code
+            raise AttributeError("access denied")
         if isinstance(attr_name, str) and not attr_name.startswith("_"):
             return attr_name
         raise AttributeError("access denied")
